@@ -56,6 +56,15 @@ def cases(tier, seed):
         for vs in itertools.product(["ok", "block"], repeat=m * 3):
             i += 1
             yield dict(_mk("v2", "v2", m, 3, vs, "o%d" % i), id=i)
+    # the LLM repeats itself: the very same text in every turn, the rails' verdicts differing per turn (all verdict matrices)
+    for ver, modes in (("v2", ("v2",)), ("v1", ("dialog", "general", "passthrough"))):
+        for mode in modes:
+            for m in (1, 2):
+                for vs in itertools.product(["ok", "block"], repeat=m * 3):
+                    i += 1
+                    c = _mk(ver, mode, m, 3, vs, "s%d" % i)
+                    c["spec"]["same_bot"] = True
+                    yield dict(c, id=i)
     # directed: per-call options that switch categories off in ONE call (also on predefined-message turns), both
     # ways of carrying the conversation (resent message list / state object); every later turn is still checked
     OPTS = [None, {"rails": {"output": False}}, {"rails": {"input": False}}, {"rails": {"input": True, "output": True, "dialog": True, "retrieval": True}}]
